@@ -459,7 +459,10 @@ func (eng *Engine) blockEffects(b *ssa.BasicBlock, e effects, visiting map[*ssa.
 			}
 		case *ssa.MapUpdate:
 			if sh := shapeOf(in.Map.Type()); sh.ok {
-				e[sh.dom], e[sh.val] = true, true
+				e[sh.dom] = true
+				for _, vk := range sh.vals {
+					e[vk] = true
+				}
 			}
 		case *ssa.Convert:
 			if isString(in.X.Type()) != isString(in.Type()) {
